@@ -3,6 +3,7 @@
 
 #include <complex>
 #include <cstring>
+#include <type_traits>
 
 #include <xsimd/xsimd.hpp>
 
@@ -145,6 +146,23 @@ namespace c14
 #undef BIN
 #undef TER
 #undef RED
+            // mask- and index-driven lane movers: their generic kernels loop over lanes under run-time control
+            out.push_back(FnEntry { "compress", tn<T>::name(), C14_ARCHNAME, 2, L, ES, false,
+                                    [](const void* a, const void* b, void* o)
+                                    {
+                                        B x = B::load_unaligned((const T*)a);
+                                        I m = I::load_unaligned((const IT*)b);
+                                        B r = xsimd::compress(x, xsimd::batch_bool_cast<T>((m & I(1)) != I(0)));
+                                        r.store_unaligned((T*)o);
+                                    } });
+            out.push_back(FnEntry { "expand", tn<T>::name(), C14_ARCHNAME, 2, L, ES, false,
+                                    [](const void* a, const void* b, void* o)
+                                    {
+                                        B x = B::load_unaligned((const T*)a);
+                                        I m = I::load_unaligned((const IT*)b);
+                                        B r = xsimd::expand(x, xsimd::batch_bool_cast<T>((m & I(1)) != I(0)));
+                                        r.store_unaligned((T*)o);
+                                    } });
             out.push_back(FnEntry { "clip", tn<T>::name(), C14_ARCHNAME, 2, L, ES, false,
                                     [](const void* a, const void* b, void* o)
                                     {
@@ -244,6 +262,36 @@ namespace c14
         C14_ITN(uint64_t, "u64")
 #undef C14_ITN
 
+        // compress/expand on integer batches: 32- and 64-bit elements only (the 8/16-bit forms do not compile on every architecture in 13.2.0)
+        template <class T>
+        typename std::enable_if<(sizeof(T) < 4)>::type add_int_movers(std::vector<FnEntry>&)
+        {
+        }
+        template <class T>
+        typename std::enable_if<(sizeof(T) >= 4)>::type add_int_movers(std::vector<FnEntry>& out)
+        {
+            using A = C14_ARCH;
+            using B = xsimd::batch<T, A>;
+            const int L = (int)B::size;
+            const int ES = (int)sizeof(T);
+            out.push_back(FnEntry { "compress", itn<T>::name(), C14_ARCHNAME, 2, L, ES, false,
+                                    [](const void* a, const void* b, void* o)
+                                    {
+                                        B x = B::load_unaligned((const T*)a);
+                                        B m = B::load_unaligned((const T*)b);
+                                        B r = xsimd::compress(x, (m & B(T(1))) != B(T(0)));
+                                        r.store_unaligned((T*)o);
+                                    } });
+            out.push_back(FnEntry { "expand", itn<T>::name(), C14_ARCHNAME, 2, L, ES, false,
+                                    [](const void* a, const void* b, void* o)
+                                    {
+                                        B x = B::load_unaligned((const T*)a);
+                                        B m = B::load_unaligned((const T*)b);
+                                        B r = xsimd::expand(x, (m & B(T(1))) != B(T(0)));
+                                        r.store_unaligned((T*)o);
+                                    } });
+        }
+
         // integer batches: every public arithmetic/bitwise function; divisors are made non-zero (and not -1) inside the call,
         // shift counts are reduced modulo the element width - the property is about termination, the preconditions stay respected
         template <class T>
@@ -316,6 +364,7 @@ namespace c14
 #undef IDIV
 #undef ISH
 #undef IRED
+            add_int_movers<T>(out);
             out.push_back(FnEntry { "ipow", itn<T>::name(), C14_ARCHNAME, 2, L, ES, false,
                                     [](const void* a, const void* b, void* o)
                                     {
